@@ -3505,3 +3505,28 @@ def c09_unicode_number_texts(seed, tier):
 
 for _p in ("C09", "C12", "C20"):
     _extend(_p, c09_unicode_number_texts, "plus texts with a byte order mark and ASCII digits continued by non-ASCII digits in every place a number can stand")
+
+
+def c20_truncated_layout_cases(seed, tier):
+    """a program that is cut off inside a block, in every layout of its end (no final line break, one, several, blanks, a
+    comment, CRLF): rejected in all of them - the verdict does not depend on the layout"""
+    cases = []
+    k = 0
+    for body in ("loop(i,2)\n1 1", "while(1)\n1 1", "loop(i,2)\nlet a = 1;", "loop(i,2)\nloop(j,2)\n1 1\nend loop", "while(1)\nrepeat(2) 1 1", "loop(i,2)\nresetRandom;", "loop(i,2)\n(1) (2)",
+                 "loop(i,2)\n1 1\nend", "loop(i,2)\nend while", "loop(i,2)"):
+        for tail in ("", "\n", "\n\n", " ", "\t\n", " # c", "\n# c", "\n# c\n", "\r\n", "\r", "\n   \n"):
+            cases.append({"id": "c20-trunc-%d" % k, "kind": "parse", "src": "A B\n" + body + tail})
+            k += 1
+    return cases
+
+
+for _p in ("C20", "C19", "C12"):
+    _extend(_p, c20_truncated_layout_cases, "plus programs cut off inside a block in every layout of their end (rejected in all of them)")
+_c20_base3 = PROPS["C20"]["cases"]
+PROPS["C20"]["cases"] = lambda seed, tier: _c20_base3(seed, tier) + [dict(c, id="c20-" + c["id"]) for c in _gen_dig.cases((seed ^ 0xC20) & 0xFFFFFF, 40 if tier == "quick" else 800, 0, 0)]
+PROPS["C20"]["oracles"] = PROPS["C20"]["oracles"] + [_f16.c16_load_oracle, _f16.c16_desc_oracle]
+PROPS["C20"]["rule"] += "; plus .dig documents (sources indented, with blank lines, CR LF): load_test(i) = from_str(source i) and the source is kept verbatim"
+
+_c20_base4 = PROPS["C20"]["cases"]
+PROPS["C20"]["cases"] = lambda seed, tier: _c20_base4(seed, tier) + long_text_cases("c20", seed, tier)
+PROPS["C20"]["rule"] += "; plus the long texts of C19 (65 536+ lines)"
